@@ -23,18 +23,20 @@ MODELS = {
          "delay": {"type": "fixed", "delay": "tau"}},
         {"reactants": ["Y"], "products": ["X"], "prop": {"type": "massaction", "k": "k2"}}],
         "params": {"k": 1.0, "k2": 0.5, "tau": 0.3}, "ic": {"X": 5, "Y": 1}},
-    "rules": {"species": ["X", "Y", "S", "R", "Q"], "reactions": [
+    "rules": {"species": ["X", "Y", "S", "R", "Q", "D"], "reactions": [
         {"reactants": ["X"], "products": ["Y"], "prop": {"type": "massaction", "k": "k"}},
         {"reactants": ["Y"], "products": ["X"], "prop": {"type": "massaction", "k": "k2"}}],
-        "params": {"k": 1.0, "k2": 0.5}, "ic": {"X": 5, "Y": 1, "S": 0, "R": 0, "Q": 0},
-        # a repeated rule, a rule that reads the time, and a rule that fires at the start only
+        "params": {"k": 1.0, "k2": 0.5}, "ic": {"X": 5, "Y": 1, "S": 0, "R": 0, "Q": 0, "D": 0},
+        "first": {"X": 5.0, "Y": 1.0, "S": 6.0, "R": 5.0, "Q": 8.0, "D": 11.0},
+        # a repeated rule, a rule that reads the time, a rule that fires at the start only, and an assignment rule of frequency dt
         "rules": [{"type": "additive", "attrs": {"equation": "S = X + Y"}}, {"type": "assignment", "attrs": {"equation": "R = 5 + 2*t"}},
-                  {"type": "assignment", "attrs": {"equation": "Q = 7 + k"}, "frequency": "start"}]},
+                  {"type": "assignment", "attrs": {"equation": "Q = 7 + k"}, "frequency": "start"},
+                  {"type": "assignment", "attrs": {"equation": "D = 2*X + 1"}, "frequency": "dt"}]},
     "both": {"species": ["S", "X", "Y"], "reactions": [
         {"reactants": ["X"], "products": [], "dreactants": [], "dproducts": ["Y"], "prop": {"type": "massaction", "k": "k"},
          "delay": {"type": "gamma", "k": "gk", "theta": "gt"}},
         {"reactants": ["Y"], "products": ["X"], "prop": {"type": "massaction", "k": "k2"}}],
-        "params": {"k": 1.0, "k2": 0.5, "gk": 2.0, "gt": 0.1}, "ic": {"X": 5, "Y": 1, "S": 0},
+        "params": {"k": 1.0, "k2": 0.5, "gk": 2.0, "gt": 0.1}, "ic": {"X": 5, "Y": 1, "S": 0}, "first": {"X": 5.0, "Y": 1.0, "S": 11.0},
         "rules": [{"type": "assignment", "attrs": {"equation": "S = 2*X + Y"}}]},
     "zero": {"species": ["X", "Y"], "reactions": [          # nothing can fire at the initial state
         {"reactants": ["X", "Y"], "products": ["Y"], "prop": {"type": "massaction", "k": "k"}}],
@@ -98,7 +100,13 @@ def call_real(M, opts, T, interface=None):
     return out
 
 
-def expected_first_row(M, T):
+def expected_first_row(M, T, spec=None):
+    """the initial condition with assignment rules applied: written out by hand for the models with rules (independent of the
+    implementation), the plain initial condition otherwise."""
+    if spec is not None and "first" in spec:
+        return [float(spec["first"][s]) for s in M.get_species_list()]
+    if spec is not None and not spec.get("rules"):
+        return [float(spec["ic"].get(s, 0)) for s in M.get_species_list()]
     from bioscrape.simulator import ModelCSimInterface
     I = ModelCSimInterface(M)
     x = np.array(M.get_species_array(), dtype=float).copy()
@@ -123,7 +131,7 @@ def run(ctx):
         ctx.begin_case({"model": mname, "grid": gname, "options": opts})
         M = build_model(spec)
         sl = M.get_species_list()
-        first = expected_first_row(M, T)
+        first = expected_first_row(M, T, spec)
         M = build_model(spec)
         real = call_real(M, opts, T) if (opts["model"] or opts["interface"]) else call_real_neither(opts, T)
         if opts["model"] and opts["interface"]:
@@ -193,7 +201,7 @@ def session_pass(ctx):
     from bioscrape.simulator import ModelCSimInterface, SafeModelCSimInterface
     for mname, spec in MODELS.items():
         T = GRIDS["5"]
-        first = expected_first_row(build_model(spec), T)
+        first = expected_first_row(build_model(spec), T, spec)
         M = build_model(spec)
         kept = {False: ModelCSimInterface(M), True: SafeModelCSimInterface(M)}
         history = []
